@@ -87,12 +87,15 @@ async fn case(pool: &KeyPool, out: &mut Out, class: &str, name: &str, cs: bool, 
         let known = ["timestamp.json", "snapshot.json", "targets.json", "1.snapshot.json", "1.targets.json"];
         cache_entries = listing(&md).into_iter().filter(|e| !known.contains(&e.as_str())).collect();
     }
+    // what `cache` asked the source for (beyond what the load had asked for)
+    let cache_requests: Vec<String> = mem.requests().iter().filter_map(|p| p.strip_prefix("/m/").map(|s| s.to_string()))
+        .filter(|p| !standard.contains(&p.as_str())).skip(role_requests.len()).collect();
     let outside = listing(sbx.path()) != ["cache", "ds"].iter().map(|s| s.to_string()).collect::<BTreeSet<_>>()
         || listing(&sbx.path().join("cache")) != ["md", "tg"].iter().map(|s| s.to_string()).collect::<BTreeSet<_>>()
         || !listing(&tg).is_empty();
     let input = json!({"name": name.as_bytes(), "cs": cs, "version": version});
     let imp = json!({"load": obs.obs["res"], "editor": editor_file, "requests": role_requests, "datastore": ds_entries,
-        "cache": cache_entries, "cache_res": cache_res, "outside": outside});
+        "cache": cache_entries, "cache_requests": cache_requests, "cache_res": cache_res, "outside": outside});
     out.case_nt(class, input, imp, true);
 }
 
